@@ -1,5 +1,6 @@
 // witness unit for the round-trip extension of property C09 (checks/c09_roundtrip.py), serializer / binary_protocol /
-// storage family: lists nested to depth 3 and lists of every arithmetic width.  Nothing here is ever executed.
+// storage family: lists nested to depth 3, lists of further arithmetic widths, long double (a scalar with padding
+// bytes).  Nothing here is ever executed.
 #include <cstring>
 #include <string>
 #include <type_traits>
@@ -17,6 +18,8 @@
         return igris::deserialize<__VA_ARGS__>(in);                            \
     }
 
+USE(f80, long double)
+USE(vec_f80, std::vector<long double>)
 USE(vec_u8, std::vector<uint8_t>)
 USE(vec_i64, std::vector<int64_t>)
 USE(vec_f32, std::vector<float>)
